@@ -239,9 +239,16 @@ def run_files(spec, M):
                         {"kind": "file", "text": text})
         paths.append(p)
         texts.append(text)
-    evs = list(SourceEvents(paths).enum())
-    if [e["source"]["uri"] for e in evs] != paths:
-        M.violation("C17.source_event", {"what": "SourceEvents does not keep the order of the paths"}, {"kind": "file", "text": ""})
+    M.count("source_event_sequences_checked")
+    try:
+        evs = list(SourceEvents(paths).enum())
+    except Exception as e:
+        evs = None
+        M.violation("C17.source_event", {"what": "SourceEvents(paths).enum() raised instead of yielding one source envelope per path",
+                                         "error": repr(e)[:200]}, {"kind": "file", "text": ""})
+    if evs is not None and evs != [{"source": {"uri": p, "data": t, "mediaType": MEDIA}} for p, t in zip(paths, texts)]:
+        M.violation("C17.source_event", {"what": "SourceEvents does not yield the source envelopes of the paths, in the order given",
+                                         "got_uris": [short(e.get("source", {}).get("uri"), 60) for e in evs][:8]}, {"kind": "file", "text": ""})
     # CLI on the temp files, three option combinations
     env = dict(os.environ, PYTHONPATH=PY_ROOT, PYTHONDONTWRITEBYTECODE="1", PYTHONIOENCODING="utf-8")
     for flags, opts in (([], (True, True, True)), (["--no-source"], (False, True, True)), (["--no-ast", "--no-pickles"], (True, False, False)),
